@@ -384,6 +384,57 @@ def n4(prog, ctx):
     ctx.floor("N4", "path stores in IntronPathStorage.fill", stores, 3)
 
 
+GI = "src/gene_info.py"
+
+
+def strand_table(prog, ctx, tag):
+    """StrandDetector.get_strand / get_clean_strand over all small (forward sites, reverse sites, polyA, polyT) cases, the site counter
+    replaced by the case parameters: the answer for the mirrored case is the opposite strand, the splice-site majority decides when there
+    is one, a single tail decides a tie."""
+    from ..engine import staticeval
+    flip = {"+": "-", "-": "+", ".": "."}
+    n = 0
+    helpers = staticeval.module_helpers(prog)
+    for name, with_tails in (("StrandDetector.get_strand", True), ("StrandDetector.get_clean_strand", False)):
+        f = prog.func(GI, name)
+        stub = None
+        for st in walk_no_nested(f):
+            if isinstance(st, ast.Assign) and isinstance(st.value, ast.Call) and (call_name(st.value) or "").endswith("count_canonical_sites"):
+                stub = src(st.value)
+        if stub is None:
+            raise AnalysisError("%s: call of count_canonical_sites not found" % name)
+        params = [a.arg for a in f.args.args]
+
+        def run(cf, cr, pa, pt):
+            args = ["<self>", "<introns>"] + ([pa, pt] if with_tails else [])
+            if len(params) != len(args):
+                raise AnalysisError("%s: unexpected signature %s" % (name, params))
+            try:
+                return staticeval.call_function(f, args, stubs={stub: (cf, cr)}, funcs=helpers)
+            except staticeval.NoEval as e:
+                raise AnalysisError("%s is not statically evaluable (%s)" % (name, e))
+        bad = None
+        for cf, cr in ((0, 0), (1, 0), (0, 1), (2, 2), (3, 1), (1, 3)):
+            for pa in ((False, True) if with_tails else (False,)):
+                for pt in ((False, True) if with_tails else (False,)):
+                    n += 1
+                    got, mir = run(cf, cr, pa, pt), run(cr, cf, pt, pa)
+                    case = "forward sites %d, reverse sites %d%s" % (cf, cr, (", polyA %s, polyT %s" % (pa, pt)) if with_tails else "")
+                    if got not in flip or mir != flip[got]:
+                        bad = bad or (case, "answers %r, but %r for the mirrored case (sites and tails swapped) - expected %r" % (got, mir, flip.get(got)))
+                    elif with_tails and cf != cr and got != ("+" if cf > cr else "-"):
+                        bad = bad or (case, "answers %r although the splice sites favour %s" % (got, "+" if cf > cr else "-"))
+                    elif with_tails and cf == cr and pa != pt and got != ("+" if pa else "-"):
+                        bad = bad or (case, "answers %r although the only tail found is %s" % (got, "polyA (+)" if pa else "polyT (-)"))
+                    elif not with_tails and got != ("+" if cf > 0 and cr == 0 else ("-" if cr > 0 and cf == 0 else ".")):
+                        bad = bad or (case, "answers %r" % got)
+        if bad:
+            ctx.fail(tag, f, name, bad[0], "%s for %s %s: the model of a transcript on that strand gets no / the wrong strand" % (name, bad[0], bad[1]))
+        else:
+            ctx.ok(tag, "%s:%d" % (GI, f.lineno), "%s: strand table is mirror-symmetric, majority of sites decides, a single tail decides a tie" % name)
+    ctx.floor(tag, "strand cases evaluated", n, 30)
+
+
 def run(prog, ctx):
     ctx.rule("N1", "for every novel TranscriptModel construction the id suffix and the model type are assigned together and pair "
                    "nic<->novel_in_catalog / nnic<->novel_not_in_catalog; the nic branch is exactly the positive branch of a subset "
@@ -394,6 +445,16 @@ def run(prog, ctx):
                    "to delete_from_storage (which deletes its read list, the only source of transcript_model_reads)")
     n1(prog, ctx)
     n2(prog, ctx)
+    ctx.rule("N6", "definite strand: finite case analysis of StrandDetector.get_strand / get_clean_strand with the splice-site counter replaced "
+                   "by case parameters - the strand for a mirrored case is the opposite one, a majority of canonical sites decides, and with "
+                   "no majority a single polyA / polyT tail decides")
+    strand_table(prog, ctx, "N6")
+    ctx.rule("N5", "the read lists of transcript_model_reads are written for every constructed model, the GTF only for models passing "
+                   "validate_exons: the gate must accept every well-formed exon list (finite case analysis of its body, incl. 1-bp exons), "
+                   "otherwise transcript_model_reads names a transcript that is not in transcript_models.gtf")
+    from . import c03 as _c03
+    _c03.validate_predicate(prog, ctx, "N5", "its reads are still listed in transcript_model_reads, which then references a transcript "
+                            "absent from transcript_models.gtf")
     ctx.rule("N4", "evidence clause, structural part: IntronPathProcessor.thread_introns appends a substituted intron only under a guard "
                    "that implies (linear form) its start >= previous end + 2, or while the chain is empty; every candidate path stored "
                    "by IntronPathStorage.fill is keyed by the result of thread_introns (influence propagation)")
